@@ -3,7 +3,7 @@
    theorems of Proofs.v speak about it); corr_codes compares it with the implementation's field by
    field, law_codes evaluates the law on the implementation's observation. *)
 From Coq Require Import ZArith List Bool.
-From TV Require Import Common.Harness C14.Model C14.Law.
+From TV Require Import Common.Harness C14.Model C14.Law C14.Graph.
 Import ListNotations.
 Open Scope Z_scope.
 
@@ -121,7 +121,7 @@ Definition model_probe (p : probe) : bool :=
   end.
 
 (* codes: 11 original's values, 12 copy's values, 13 sharing pattern, 14 owner pattern, 15 probes,
-   16 class *)
+   16 class, 17 sharing of child objects (Graph.child_shared) *)
 Definition corr_codes (cs : case) : list Z :=
   let '(c, hs, op, ob) := cs in
   let m := model_obs op c hs in
@@ -132,6 +132,12 @@ Definition corr_codes (cs : case) : list Z :=
   ++ chk 14 (forallb (fun p => blist_eqb (owned_pattern (vget (co_copy m) (fst p)))
                                          (owned_pattern (vget (co_copy ob) (fst p)))) c)
   ++ chk 15 (list_eqb probe_eqb (co_probes m) (filter model_probe (co_probes ob)))
-  ++ chk 16 (Bool.eqb (co_same_class m) (co_same_class ob)).
+  ++ chk 16 (Bool.eqb (co_same_class m) (co_same_class ob))
+  (* 17: children reached through Instance / List(Instance) / Dict traits are shared with the original exactly
+     when the object-graph model (C14/Graph.v) says so: effective mode of the trait not deep *)
+  ++ chk 17 (forallb (fun pr => match pr with
+                                | PInst _ meta shared _ => Bool.eqb shared (child_shared op meta)
+                                | _ => true
+                                end) (co_probes ob)).
 
 Definition law_codes (cs : case) : list Z := let '(c, hs, op, ob) := cs in law op c ob.
